@@ -649,7 +649,9 @@ impl RADAU {
                 let r = cont[i] / scal[i];
                 err += r * r;
             }
-            err = (err / n as Float).sqrt().max(1e-10);
+            err = (err / n as Float).sqrt();
+            // A NaN norm must reject the step (`max` alone would turn it into 1e-10)
+            err = if err.is_nan() { Float::INFINITY } else { err.max(1e-10) };
 
             // Optional refinement on first/rejected step
             if err >= 1.0 && (first || reject) {
@@ -671,7 +673,9 @@ impl RADAU {
                     let r = cont[i] / scal[i];
                     err += r * r;
                 }
-                err = (err / n as Float).sqrt().max(1e-10);
+                err = (err / n as Float).sqrt();
+                // A NaN norm must reject the step (`max` alone would turn it into 1e-10)
+                err = if err.is_nan() { Float::INFINITY } else { err.max(1e-10) };
             }
 
             // --- Computation of hnew ---
